@@ -12,8 +12,8 @@ Sub-checks
   quantize_fold   (d2) model_quantize(enable_bn_folding=True) + weight transfer
   history         step lists on ONE folded model instance (call,
                   get_folded_weights, unfold_model, model_save_quantized_weights,
-                  set_weights with the same iteration, assign to single
-                  variables): every observation must hold for the CURRENT
+                  populate_bias_quantizer_from_accumulator, set_weights with
+                  the same iteration, assign to single variables): every observation must hold for the CURRENT
                   parameters; "stale" marks results equal to the folded
                   weights of an earlier parameter set
 """
@@ -39,7 +39,9 @@ RULE = ("layer cases = (QConv2DBatchnorm | QDepthwiseConv2DBatchnorm) x "
         "model_quantize(enable_bn_folding=True)). History cases = one "
         "folded layer in a functional model + 2..6 (10) steps on that same "
         "instance (observe: call / get_folded_weights / unfold_model / "
-        "model_save_quantized_weights; mutate: set_weights of a new drawn "
+        "model_save_quantized_weights; populate_bias_quantizer_from_"
+        "accumulator, after which the bias reference quantizer is the one "
+        "get_quantizers() reports; mutate: set_weights of a new drawn "
         "parameter set with unchanged iteration, assign to kernel / bias / "
         "gamma / beta / moving_mean / moving_variance), observations "
         "repeated at the end; non-trivial if it has a mutation. Otherwise "
@@ -78,7 +80,7 @@ ASSUMPTIONS = [
     "depthwise layers use equal row/column strides; dilation only with "
     "stride 1 (TensorFlow / Keras constraints)",
 ]
-BUDGET_S = {"quick": 45, "thorough": 840}
+BUDGET_S = {"quick": 38, "thorough": 840}
 REQUIRED_LABELS = {
     "quick": ["lattice", "hyp_layer", "hyp_unfold", "hyp_quantize",
               "cls:conv", "cls:dw",
@@ -90,7 +92,8 @@ REQUIRED_LABELS = {
               "unfold_checked", "fold_list_checked", "quantize_fold_checked",
               "tmpl:branched", "not_folded_conv_present", "hyp_history",
               "history_checked", "hist:set_weights", "hist:assign",
-              "hist:unfold", "hist:gfw"],
+              "hist:unfold", "hist:gfw", "populated", "stock_frozen",
+              "stock_bn_stats_only"],
 }
 REQUIRED_LABELS["thorough"] = REQUIRED_LABELS["quick"]
 
@@ -147,7 +150,7 @@ def _quantize(qstr, arr):
   import tensorflow as tf  # pylint: disable=g-import-not-at-top
   if qstr is None:
     return np.asarray(arr, dtype=np.float32)
-  q = _fresh(qstr)
+  q = _fresh(qstr) if isinstance(qstr, str) else qstr
   return np.asarray(q(tf.constant(np.asarray(arr, dtype=np.float32))),
                     dtype=np.float32)
 
@@ -645,6 +648,12 @@ def model_labels(case, st, src):
   for k in ("unfold_checked", "fold_list_checked", "quantize_fold_checked"):
     if st.get(k):
       labs.append(k)
+  if case["kind"] == "unfold":
+    for nd in case["nodes"]:
+      if nd.get("trainable") is False:
+        labs.append("stock_frozen")
+      if nd["op"] == "bn" and not nd["center"] and not nd["scale"]:
+        labs.append("stock_bn_stats_only")
   if case["kind"] == "quantize":
     labs.append("qstyle:" + case["q"]["style"])
     labs.append("folds:%d" % min(st.get("n_folds", 0), 3))
@@ -711,7 +720,7 @@ def oracle_history(case, st):
   cur = {"kernel": kernel, "bias": bias, "gamma": gamma, "beta": beta,
          "mean": mean, "var": var}
   earlier = []
-  state = {"after": "none", "n": 0}
+  state = {"after": "none", "n": 0, "bq": node["bq"], "populated": False}
 
   def add(clause, detail, stale=None):
     sig = {"clause": clause, "cls": cls, "after": state["after"]}
@@ -748,7 +757,7 @@ def oracle_history(case, st):
       except Exception as e:  # pylint: disable=broad-except
         fails.append(_lib_exc(e, "call", opts))
         return
-      if node["kq"] is None and node["bq"] is None:
+      if node["kq"] is None and state["bq"] is None:
         ref, mag = R.conv_bn(cls, x, cur["kernel"], cur["bias"], cur["gamma"],
                              cur["beta"], cur["mean"], cur["var"], eps,
                              strides, g["pad"], dil)
@@ -759,13 +768,14 @@ def oracle_history(case, st):
         for sk, sb in (_fold32(cls, cur, eps),
                        (kf.astype(np.float32), bf.astype(np.float32))):
           ref, mag = R.conv_bias(cls, x, _quantize(node["kq"], sk),
-                                 _quantize(node["bq"], sb), strides, g["pad"],
-                                 dil)
+                                 _quantize(state["bq"], sb), strides,
+                                 g["pad"], dil)
           res.append(_cmp(y, relu(ref), mag))
           if not res[-1][0]:
             break
       if all(r[0] for r in res):
-        add("output", res[0][2])
+        add("output_after_populate" if state["populated"] else "output",
+            res[0][2])
 
     def obs_gfw():
       try:
@@ -808,6 +818,30 @@ def oracle_history(case, st):
             model_save_quantized_weights(m)
         except Exception as e:  # pylint: disable=broad-except
           fails.append(_lib_exc(e, "model_save_quantized_weights", opts))
+      elif op == "populate":
+        if node["kq"] is None:
+          continue      # float kernel: no fixed-point accumulator to derive
+        from qkeras.quantizers import quantized_bits  # pylint: disable=g-import-not-at-top
+        before = layer.get_quantizers()[1]
+        try:
+          with contextlib.redirect_stdout(io.StringIO()):
+            bn_folding_utils.populate_bias_quantizer_from_accumulator(
+                m, [quantized_bits(8, 0, 1)])
+          rep = layer.get_quantizers()[1]
+        except Exception as e:  # pylint: disable=broad-except
+          fails.append(_lib_exc(e, "populate_bias_quantizer", opts))
+          continue
+        st["populates"] = st.get("populates", 0) + 1
+        if before is not None:
+          if str(rep) != str(before):
+            add("populate_changed_given_quantizer",
+                "%s -> %s" % (before, rep))
+        elif rep is None:
+          add("populate_no_quantizer", "get_quantizers()[1] is None")
+        else:
+          # reference = a copy of the quantizer the layer REPORTS
+          state["bq"] = rep.__class__.from_config(rep.get_config())
+          state["populated"] = True
       elif op == "set_weights":
         nk, nb = G.layer_tensors(dict(node, wseed=stp["wseed"],
                                       kscale=stp["kscale"]), cin)
@@ -884,6 +918,8 @@ def history_labels(case, st, src):
   labs.append("hist_len:%d" % min(len(case["steps"]), 10))
   if st.get("history_checked"):
     labs.append("history_checked")
+  if st.get("populates"):
+    labs.append("populated")
   labs = sorted(set(labs), key=labs.index)
   return labs, bool(st.get("history_checked") and st.get("mutations"))
 
